@@ -139,6 +139,19 @@ def lower(s):
     return mk_str(f_lower(s.z))
 
 
+_PURE = {}
+
+
+def pure_method(s, name):
+    """any other argument-free str -> str method: an uninterpreted function of the string"""
+    if conc(s):
+        return getattr(s, name)()
+    f = _PURE.get(name)
+    if f is None:
+        f = _PURE[name] = z3.Function("str_" + name, StrSort, StrSort)
+    return mk_str(f(s.z))
+
+
 def strip(s):
     if conc(s):
         return s.strip()
